@@ -354,6 +354,7 @@ package server
 //@ assert at "res, err = s.runElection(" [election-dispatched] in.ElectionId != nil
 //@ assert at "s.doModify(cid, in.Operation" [operations-dispatched] len(in.Operation) != 0
 //@ assert at "unimplemented handling of message" [nothing-to-dispatch] in.Params == nil && in.ElectionId == nil && len(in.Operation) == 0
+//@ assert at "resultChan <- res" [only-handler-answers-written] !skipWrite && (in.Params != nil || in.ElectionId != nil)
 //@ ensures[verdicts-are-errors] forall i in old(len(sent(errCh)))..len(sent(errCh)) :: sent(errCh)[i] == nil ==> modCleanEnd
 //@ assert at "if res, err = s.checkParams(" [params-single-field] !multiField(in)
 //@ assert at "if err := s.updateParams(" [params-only-first] nRecv == 1 && !multiField(in)
